@@ -123,7 +123,7 @@ Definition obj_ok (p : config * cstate) : Prop :=
 Lemma obj_step_ok : forall p o, obj_ok p -> obj_ok (obj_step p o).
 Proof.
   intros [cfg cs] o [I B]. unfold obj_step. cbn [fst snd] in *.
-  pose proof (rstep_inv cfg cs o I) as I1. pose proof (rstep_shape cfg cs o) as (S1 & _ & _).
+  pose proof (rstep_inv cfg cs o I) as I1. pose proof (rstep_shape cfg cs o) as (S1 & _).
   pose proof (rstep_bounded cfg cs o) as B1.
   destruct (rstep cfg cs o) as [[cfg1 cs1] r]. cbn [fst snd] in *.
   split; [exact I1|]. cbn [fst snd]. intros Hmax. rewrite S1 in Hmax. rewrite S1. apply B1; auto.
